@@ -5,7 +5,9 @@ package main
 //       length, every byte replaced by boundary values, insertions, deletions), whole streams and
 //       bodies, under protocol versions 3, 4 and 5;
 //   (b) every body up to a small length over a small alphabet for every packet type x version;
-//   (c) random bodies and mutated outputs of the real encoder.
+//   (c) random bodies and mutated outputs of the real encoder;
+//   (d) property blocks with exactly one broken field in layouts that expose mishandled errors.
+// All decode calls run in a watched child process; a decoder that does not terminate is outcome 3.
 // Each case carries the outcome class (ok / error / panic) and, for ok, the decoded fields.
 
 import (
@@ -30,13 +32,15 @@ func engCodecTotal(seed int64, tier string, _ []string, out *sx.Out) {
 	rng := rand.New(rand.NewSource(seed))
 	thorough := tier == "thorough"
 	versions := []byte{3, 4, 5}
+	q := newDecQueue(out) // every decode call runs in a watched child process (eng_codec_sandbox.go)
+	defer q.flush()
 
 	// (a) catalogue and its mutations -------------------------------------------------------
 	cat := catalogue()
 	repl := []byte{0x00, 0x01, 0x7f, 0x80, 0xff}
 	for _, cv := range cat {
 		for _, v := range versions {
-			out.Case(streamCase(v, cv.raw))
+			q.stream(v, cv.raw)
 		}
 		hb, body, ok := splitHeader(cv.raw)
 		if !ok {
@@ -49,7 +53,7 @@ func engCodecTotal(seed int64, tier string, _ []string, out *sx.Out) {
 			vs = []byte{cv.v, 5}
 		}
 		for _, v := range vs {
-			mk := func(b []byte) { out.Case(bodyCase(v, headerOf(hb, len(b)), b)) }
+			mk := func(b []byte) { q.body(v, headerOf(hb, len(b)), b) }
 			mk(body)
 			if len(body) > 600 { // the few very long vectors: only truncations at a stride
 				for i := 0; i < len(body); i += 97 {
@@ -82,7 +86,7 @@ func engCodecTotal(seed int64, tier string, _ []string, out *sx.Out) {
 			// Remaining that disagrees with the body length (the decoders of DISCONNECT, AUTH and
 			// the acknowledgements consult FixedHeader.Remaining)
 			for _, rem := range []int{0, 1, 2, 3, 4, len(body) + 1} {
-				out.Case(bodyCase(v, headerOf(hb, rem), body))
+				q.body(v, headerOf(hb, rem), body)
 			}
 		}
 	}
@@ -112,10 +116,10 @@ func engCodecTotal(seed int64, tier string, _ []string, out *sx.Out) {
 			if ty == packets.Publish {
 				qoss = []byte{0, 1}
 			}
-			for _, q := range qoss {
+			for _, qos := range qoss {
 				var rec func(prefix []byte)
 				rec = func(prefix []byte) {
-					out.Case(bodyCase(pl.v, fhFor(ty, q, len(prefix)), prefix))
+					q.body(pl.v, fhFor(ty, qos, len(prefix)), prefix)
 					if len(prefix) == pl.maxLen {
 						return
 					}
@@ -137,7 +141,7 @@ func engCodecTotal(seed int64, tier string, _ []string, out *sx.Out) {
 		var rec func(tail []byte)
 		rec = func(tail []byte) {
 			b := append(append([]byte{}, prefix...), tail...)
-			out.Case(bodyCase(5, fhFor(packets.Connect, 0, len(b)), b))
+			q.body(5, fhFor(packets.Connect, 0, len(b)), b)
 			if len(tail) == maxLen {
 				return
 			}
@@ -151,10 +155,13 @@ func engCodecTotal(seed int64, tier string, _ []string, out *sx.Out) {
 	for hb := 0; hb < 256; hb++ {
 		for _, tail := range [][]byte{{}, {0}, {1, 0}, {2, 0, 1}, {3, 0, 1, 0}, {0x80}, {0xff, 0xff, 0xff, 0x7f}, {5, 0, 1, 0x61, 0, 0}} {
 			for _, v := range []byte{4, 5} {
-				out.Case(streamCase(v, append([]byte{byte(hb)}, tail...)))
+				q.stream(v, append([]byte{byte(hb)}, tail...))
 			}
 		}
 	}
+
+	// (d) structured property blocks with one broken field (eng_codec_propblocks.go)
+	propBlockCases(q, thorough)
 
 	// (c) random bodies and mutated encoder outputs ---------------------------------------------
 	nrand := 15000
@@ -182,7 +189,7 @@ func engCodecTotal(seed int64, tier string, _ []string, out *sx.Out) {
 			if rng.Intn(10) == 0 {
 				rem = rng.Intn(6)
 			}
-			out.Case(bodyCase(v, fhFor(ty, byte(rng.Intn(3)), rem), b))
+			q.body(v, fhFor(ty, byte(rng.Intn(3)), rem), b)
 			continue
 		}
 		pk := genPacket(rng, ty, v, true)
@@ -205,9 +212,9 @@ func engCodecTotal(seed int64, tier string, _ []string, out *sx.Out) {
 				m = m[:j]
 			}
 		}
-		out.Case(streamCase(v, m))
+		q.stream(v, m)
 		if hb, body, ok := splitHeader(m); ok {
-			out.Case(bodyCase(v, headerOf(hb, len(body)), body))
+			q.body(v, headerOf(hb, len(body)), body)
 		}
 	}
 }
